@@ -131,6 +131,9 @@ func c28Parse(r *verifh.Run, l string, s string) {
 			r.Violation(key, "StringToAddress(%q) accepted as %x although String() = %q", s, a[:], a.String())
 		}
 	}
+	if err == nil && !hexOK {
+		r.Violation("non-hex-string-accepted", "StringToAddress(%q) accepted as %x although the text (after an optional leading 0x) is not hexadecimal", s, a[:])
+	}
 	switch {
 	case err == nil && !valid:
 		key := "accepted-not-an-encoding"
@@ -192,6 +195,16 @@ func c28Generate(r *verifh.Run) []string {
 	add("0")
 	add("0X" + c28WithSum(make([]byte, AddressLen)))
 	add("0x0x" + c28WithSum(make([]byte, AddressLen)))
+	// "0x" that is not at the very start must never be stripped (seeded change C28-m4)
+	{
+		g := c28WithSum(append([]byte{0x03, 0x01, 0x02, 0x03}, make([]byte, AddressLen-4)...))
+		add(g[:1] + "0x" + g[1:]) // "00x3010203..."
+		add(g + "0x")             // <74 hex>0x
+		add(g[:len(g)-2] + "0x" + g[len(g)-2:])
+		add(g[:36] + "0x" + g[36:])
+		add("0x" + g[:36] + "0x" + g[36:])
+		add(g[:1] + "0X" + g[1:])
+	}
 	// odd-length relatives of valid encodings (a lenient decoder that pads would accept them)
 	for _, typeID := range []byte{0, 1, 2, 0x0f, 0x10} {
 		var a Address
@@ -228,7 +241,7 @@ func c28Generate(r *verifh.Run) []string {
 			copy(a[:], rng.Bytes(AddressLen))
 		}
 		good := c28WithSum(a[:])
-		switch k := rng.Intn(16); k {
+		switch k := rng.Intn(18); k {
 		case 0:
 			lines = append(lines, "format "+verifh.Hex(a[:])+" "+verifh.Hex(hashing.Checksum(a[:], checksumLen)))
 		case 1:
@@ -306,6 +319,30 @@ func c28Generate(r *verifh.Run) []string {
 			add(c28WithSum(p))
 		case 14: // all upper case incl. payload, lower prefix
 			add("0x" + strings.ToUpper(good))
+		case 15, 16: // a valid encoding (un-prefixed or prefixed) with a prefix-like fragment spliced in
+			// at offset 1, somewhere in the middle, len-2 or the end: only an ANCHORED "0x" may be stripped
+			base := good
+			if rng.Bool() {
+				base = "0x" + good
+			}
+			if rng.Chance(30) {
+				base = strings.ToUpper(good)
+			}
+			frag := []string{"0x", "0x", "0X", "x", "0", "0x0x", "X"}[rng.Intn(7)]
+			var off int
+			switch rng.Intn(5) {
+			case 0:
+				off = 1
+			case 1:
+				off = 2 + rng.Intn(len(base)-3)
+			case 2:
+				off = len(base) - 2
+			case 3:
+				off = len(base)
+			default:
+				off = 2 * (1 + rng.Intn(len(base)/2-1)) // byte boundary
+			}
+			add(base[:off] + frag + base[off:])
 		default: // checksum of a different address
 			var o Address
 			copy(o[:], rng.Bytes(AddressLen))
